@@ -33,6 +33,12 @@ def scratch_base() -> str:
     if base:
         os.makedirs(base, exist_ok=True)
         return base
+    shm = '/dev/shm'
+    try:  # tmpfs: fsync is free there and scratch containers never touch the disk
+        if os.path.isdir(shm) and os.access(shm, os.W_OK) and shutil.disk_usage(shm).free > (4 << 30):
+            return shm
+    except OSError:
+        pass
     return tempfile.gettempdir()
 
 
